@@ -150,6 +150,12 @@ class CharStream:
         return "%s(%s)@%d" % ("char_indices" if self.indices else "chars", fmt(self.src), self.pos)
 
 
+class LIter(list):
+    """The iterator obtained from a concrete list (`v.iter()`, `v.into_iter()`) in concrete_vec mode: a list (so that every adapter and
+    terminal defined on lists applies) that `next()` consumes — the vector it came from is not touched."""
+    __slots__ = ()
+
+
 class MapV:
     """Concrete map / set (HashMap, BTreeMap, HashSet, …): an association list compared with `Eq` on the keys (symbolic keys
     give eq atoms).  Sets are maps to UNIT.  Iteration order is the insertion order — rules must not rely on it."""
@@ -616,6 +622,18 @@ class Evaluator:
 
     def compare(self, op, a, b):
         conc = lambda x: isinstance(x, (bool, int, str)) and not isinstance(x, Sym)  # noqa: E731
+        if isinstance(a, tuple) and isinstance(b, tuple) and not isinstance(a, Sym) and len(a) == len(b) and op in ("Lt", "Le", "Gt", "Ge"):
+            # lexicographic, as derived PartialOrd on tuples
+            for x, y in zip(a, b):
+                if not self.compare("Eq", x, y):
+                    return self.compare({"Le": "Lt", "Ge": "Gt"}.get(op, op), x, y)
+            return op in ("Le", "Ge")
+        if isinstance(a, V) and isinstance(b, V) and op in ("Lt", "Le", "Gt", "Ge") and {a.name, b.name} <= {"Some", "None"}:
+            # Option's derived order: None < Some(_), Some(x) vs Some(y) by x vs y
+            if a.name == "Some" and b.name == "Some":
+                return self.compare(op, a.fields[0], b.fields[0])
+            ra, rb = (0 if a.name == "None" else 1), (0 if b.name == "None" else 1)
+            return {"Lt": ra < rb, "Le": ra <= rb, "Gt": ra > rb, "Ge": ra >= rb}[op]
         if isinstance(a, St) and isinstance(b, St) and op in ("Eq", "Ne") and a.ty == b.ty and set(a.f) == set(b.f):
             res = all(self.compare("Eq", a.f[k_], b.f[k_]) for k_ in sorted(a.f))
             return res if op == "Eq" else not res
@@ -841,6 +859,15 @@ class Evaluator:
         raise Abort("field %s of %r" % (name, base))
 
     def assign(self, lhs, v, env, depth):
+        if self.concrete_vec and lhs.get("k") == "unary" and lhs.get("op") == "Deref" and isinstance(v, V):
+            inner = H.strip(lhs["e"])
+            if inner.get("k") == "path" and "local" in inner.get("res", {}):
+                cur = env.get(inner["res"]["id"])
+                if isinstance(cur, V) and cur is not v:
+                    # `*r = value` through a `&mut` to an enum value: the referent changes, and with it what every holder of the reference
+                    # (the caller's variable the method was invoked on) sees
+                    cur.name, cur.fields, cur.named = v.name, v.fields, v.named
+                    return
         lhs = H.strip(lhs)
         k = lhs.get("k")
         if k == "path" and "local" in lhs.get("res", {}):
@@ -864,6 +891,14 @@ class Evaluator:
             self.path.events.append(Event("write", None, [Sym(("index", term(base), term(idx))), v], None, lhs.get("sp"), name="[]"))
             return
         if k == "unary" and lhs.get("op") == "Deref":
+            inner = H.strip(lhs["e"])
+            if self.concrete_vec and inner.get("k") == "path" and "local" in inner.get("res", {}) and isinstance(v, V):
+                cur = env.get(inner["res"]["id"])
+                if isinstance(cur, V) and cur is not v:
+                    # `*r = value` through a `&mut` to an enum value: the referent changes, and with it what every holder of the reference
+                    # (the caller's variable the method was invoked on) sees
+                    cur.name, cur.fields, cur.named = v.name, v.fields, v.named
+                    return
             return self.assign(lhs["e"], v, env, depth)
         if k in ("mcall", "call"):
             # `*place_returning_call() = v`
@@ -1198,6 +1233,9 @@ class Evaluator:
         if body is None:
             raise Abort("for-loop shape")
         items = self.items_of(coll)
+        if isinstance(coll, LIter):
+            items = list(coll)
+            del coll[:]          # the loop drains the iterator
         try:
             for x in items:
                 e2 = dict(env)
@@ -1456,6 +1494,8 @@ class Evaluator:
             sz = {"u8": 1, "i8": 1, "bool": 1, "u16": 2, "i16": 2, "u32": 4, "i32": 4, "char": 4, "f32": 4, "u64": 8, "i64": 8, "f64": 8, "u128": 16, "i128": 16}.get(node["targs_full"][0].strip())
             if sz is not None:
                 return sz
+        if self.concrete_vec and name == "into_iter" and len(args) == 1 and type(a0) is list and "IntoIterator" in fn:
+            return LIter(a0)          # a consuming view: `next()` advances the iterator, not the vector
         if IDENTITY_FNS.search(fn):
             return a0
         is_opt = base.startswith("core::option::Option::")
@@ -1505,6 +1545,12 @@ class Evaluator:
             x = self.force(x, ("Ok", "Err")) if isinstance(x, Sym) else x
             return V("Ok", (V("Some", (x.fields[0],)),)) if x.name == "Ok" else x
         if self.concrete_vec and isinstance(a0, list) and name == "size_hint":
+            # exact by default; a rule may ask for another *valid* hint (lower <= len <= upper, or no upper bound) through `size_hint_of`,
+            # to decide that a collector's result does not depend on the hint its source happens to give
+            hf = getattr(self, "size_hint_of", None)
+            if hf is not None:
+                lo_, hi_ = hf(len(a0))
+                return (lo_, V("None") if hi_ is None else V("Some", (hi_,)))
             return (len(a0), V("Some", (len(a0),)))
         if self.concrete_vec and isinstance(a0, list) and name == "reserve":
             return UNIT
@@ -1532,6 +1578,10 @@ class Evaluator:
         if base.startswith("core::cmp::PartialOrd::") and name in ("lt", "le", "gt", "ge") and len(args) == 2:
             return self.compare(name.capitalize(), args[0], args[1])
         if base in ("core::mem::replace",) and len(args) == 2:
+            if self.concrete_vec and isinstance(args[0], V) and isinstance(args[1], V) and args[0] is not args[1]:
+                old_ = V(args[0].name, args[0].fields, args[0].named)
+                args[0].name, args[0].fields, args[0].named = args[1].name, args[1].fields, args[1].named
+                return old_
             return args[0]
         if name in ("to_le_bytes", "to_be_bytes") and len(args) == 1 and isinstance(a0, int) and not isinstance(a0, bool):
             m_ = re.match(r"^(u8|u16|u32|u64|u128|usize)::to_(le|be)_bytes$", base)
@@ -1595,6 +1645,12 @@ class Evaluator:
             import charpred
             if name in charpred.CHAR_METHODS and len(args) == 1:
                 return bool(charpred.CHAR_METHODS[name](int(a0)))
+        if self.concrete_vec and name in ("iter", "into_iter") and len(args) == 1 and type(a0) is list and not fn.startswith("identity_"):
+            return LIter(a0)          # a consuming view: `next()` advances the iterator, not the vector
+        if base.endswith("intrinsics::write_box_via_move") and len(args) == 2 and isinstance(args[1], list):
+            return args[1]            # `vec![a, b]` (boxed array literal → Vec): the elements
+        if base.endswith("boxed::box_assume_init_into_vec_unsafe") and len(args) == 1 and isinstance(a0, list):
+            return a0
         if name in IDENTITY_METHODS and len(args) == 1 and not fn.startswith("identity_"):
             return a0
         return NotImplemented
@@ -2185,6 +2241,8 @@ class Evaluator:
         ap = lambda f, ys: self.apply(f, ys, depth, node)  # noqa: E731
         if name == "collect" and self.concrete_vec and node is not None and node.get("targs_full"):
             return self.collect_into(xs, node["targs_full"][-1], depth, node)
+        if self.concrete_vec and name in ("iter", "into_iter") and type(xs) is list:
+            return LIter(xs)
         if name in ("iter", "into_iter", "iter_mut", "cloned", "copied", "peekable", "by_ref", "to_vec", "collect", "rev"):
             return list(reversed(xs)) if name == "rev" else xs
         if name == "any":
@@ -2247,6 +2305,8 @@ class Evaluator:
         if name == "count" or name == "len":
             return len(xs)
         if name == "next":
+            if isinstance(xs, LIter):
+                return V("Some", (xs.pop(0),)) if xs else V("None")
             return V("Some", (xs[0],)) if xs else V("None")
         if name == "for_each":
             for x in xs:
